@@ -32,6 +32,7 @@ def _mods():
 
 
 _CLS_CACHE = {}
+SEEN_BY = []            # the layer objects whose handlers ran (identity, not name)
 REFUSE = set()          # names of layers whose next send() raises (once)
 
 
@@ -75,6 +76,7 @@ def _rec_class(name):
 
         def onEvent(self, ev):
             Rec.LOG.append(("event", self.NAME, ev.getName()))
+            SEEN_BY.append(self)
             return self.NAME in (Rec.CONSUME or ())
     Rec.__name__ = "Rec_" + name
     _CLS_CACHE[name] = Rec
@@ -110,6 +112,7 @@ def _rec_class_decorated(name, style):
 
     def handler(self, ev):
         type(self).LOG.append(("event", self.NAME, ev.getName()))
+        SEEN_BY.append(self)
         return self.NAME in (type(self).CONSUME or ())
     if style == "inherited":
         Base = type("Base_" + name, (Common,), {"on_test": L.EventCallback("ev.test")(handler)})
@@ -373,10 +376,15 @@ def h_events(ctx, depth, options):
     style = ctx.choice("style", ["classes", "implicit"])
     # how a layer registers its handlers is independent of the stack's depth: the dimension is explored on the shallow stacks
     HANDLER_STYLE[0] = ctx.choice("layers_receive_events_by", ["onEvent", "decorated", "inherited"]) if depth <= 2 else "onEvent"
+    # a stack of the same layer classes built earlier in the process (a second account, a rebuilt stack): its layers see nothing of
+    # this stack's events
+    earlier = ctx.flag("an_earlier_stack_of_the_same_classes") if depth <= 2 else False
     try:
+        st0 = _build(shape, style, False)[0] if earlier else None
         st, names, log = _build(shape, style, False)
     finally:
         HANDLER_STYLE[0] = "onEvent"
+    del SEEN_BY[:]
     direction = ctx.choice("direction", ["emit", "broadcast"])
     detached = ctx.flag("detached")
     # emitter: -1 = the stack itself (emitEvent enters at the bottom, broadcastEvent at the top), else a plain position
@@ -403,6 +411,12 @@ def h_events(ctx, depth, options):
         _run_loop_once(st)
     seen = [e[1] for e in log if e[0] == "event"]
     obs.append(("event seen exactly once, in stack order, until consumed (expected %s, got %s)" % (expected, seen), seen == expected))
+    mine = set()
+    for i in range(len(shape)):
+        l = st.getLayer(i)
+        mine.add(id(l))
+        mine.update(id(x) for x in getattr(l, "sublayers", ()) or ())
+    obs.append(("the handlers that ran belong to layers of THIS stack", all(id(x) in mine for x in SEEN_BY)))
     return obs
 
 
